@@ -8,8 +8,7 @@ from sa.idioms import (guarded, call_consumed, is_discarded, reach_under, combin
 from sa.raises import Escapes
 from sa.project import dotted
 
-EXPLANATION = (
-    "Bookkeeping shape decided on CFG/call graph: R1 in spawn_process the new "
+EXPLANATION = (    "Bookkeeping shape decided on CFG/call graph: R1 in spawn_process the new "
     "child is put into the process table before any hook, event, yield or "
     "return; R2 every removal from the table is inside reap_process, or "
     "control-dependent on the truthy result of an awaited kill_process, or on a "
@@ -20,7 +19,9 @@ EXPLANATION = (
     "status being written; R5 list/numprocesses/stats/status read the one "
     "process table and status field; R6 a refused adoption (after_spawn false) "
     "removes the entry it registered and returns False. Shared with C02 R4: "
-    "'stopped' only after kill+reap. Decides these necessary conditions, not "
+    "'stopped' only after kill+reap."
+    "R2 also requires the dead-entry sweep to cover both dead statuses and the wait status to come from waitpid only; R3 also requires the reap receiver to be the pid-map lookup; R6 also requires the kill of a refused child to be issued while it is still tracked. "
+    "Decides these necessary conditions, not "
     "agreement with the kernel's process table.")
 ASSUMPTIONS = ["posix platform",
                "exceptions modelled: explicit `raise X(...)` statements of the package "
